@@ -223,13 +223,15 @@ HISTORIES = [
     ("root key, protect now, then a blob from an earlier L1 interval of the same L0", [("load",), ("protect",), ("unprotect", 1), ("unprotect", 0)], [0, 0, 0, 0]),
     ("a public-key reply to protect is not seed material: the later unprotect still asks the DC and succeeds", [("protect_pub",), ("unprotect", 1), ("unprotect", 0)], [1, 1, 1]),
     ("seed keys cached by unprotect survive a later public-key protect", [("unprotect", 0), ("protect_pub",), ("unprotect", 1)], [1, 1, 0]),
+    ("loading a different root key leaves the envelopes cached for this one alone", [("unprotect", 0), ("load_other",), ("unprotect", 1), ("unprotect", 0)], [1, 0, 0, 0]),
+    ("an empty cache handed in by the caller is the one that gets filled", [("unprotect", 0), ("unprotect", 0), ("unprotect", 1)], [1, 0, 0]),
 ]
 BLOBS = [(361, 9, 4, 0), (361, 3, 7, 0), (361, 9, 5, 0), (362, 1, 1, 0), (361, 9, 4, 1)]  # (l0, l1, l2, sid index)
 
 
 @harness(P, per_job=True, params=lambda tier: [dict(h=i, flavour=f) for i in range(len(HISTORIES)) for f in (("sync",) if tier == "quick" and i < 7 else ("sync", "async"))],
          max_steps=4000000, raises=(e2e.ScalarOutOfRange,),
-         bounds="9 listed operation histories (up to 4 calls) over {load root key, unprotect blobs at 5 listed positions on 2 L0s / 2 SIDs, protect now with a seed-key or a public-key reply} through the public API against "
+         bounds="11 listed operation histories (up to 4 calls) over {load root key, load another root key, unprotect blobs at 5 listed positions on 2 L0s / 2 SIDs, protect now with a seed-key or a public-key reply} through the public API against "
          "a conforming-DC stub that counts GetKey calls; plaintexts symbolic", outside="other histories (the inductive steps above cover histories of any length at cache level)",
          must_reach=("same plaintext as with a fresh cache", "domain controller contacted exactly when no covering material was cached"))
 def histories(c, h, flavour):
@@ -256,6 +258,10 @@ def histories(c, h, flavour):
         before = len(dc.calls)
         if op == "load":
             c.call(cache.load_key, root, e2e.RK, kdf_parameters=_gkdi.KDFParameters(hash_name).pack())
+        elif op == "load_other":
+            import uuid
+
+            c.call(cache.load_key, c.bytes("other_root", 64), uuid.UUID(int=0xABCDEF), kdf_parameters=_gkdi.KDFParameters(hash_name).pack())
         elif op in ("protect", "protect_pub"):
             dc.public_for_protect = op == "protect_pub"
             if op == "protect_pub":
